@@ -209,12 +209,26 @@ def r74(F):
                     truth = (not same) if is_ne else same
                     for sb, ft, tt in util.bool_switches(fn, t["dest"]["l"]):
                         only[sb] = {tt if truth else ft}
-        return cfg.reachable(fn, 0, edge_ok=lambda a, b2: a not in only or b2 in only[a])
+        # path-sensitive on flags set to constants (`let is_ws = matches!(tok.typ, WS); .. if is_ws { continue }`)
+        return cfg.reachable_ps(fn, 0, edge_ok=lambda a, b2: a not in only or b2 in only[a])
     ws_reach = reach_for("WS")
     need(len(ws_reach) > 10, "tokenize body not traversed")
+    def synthetic(b, t):
+        """the token pushed here is built in tokenize itself (the END marker): a struct literal, or Token::new with a constant type"""
+        labs = o.at(t["args"][1], b)
+        if [x for x in labs if x[0] == "agg" and x[1] == "ucglib::ast::Token"]:
+            return True
+        made = [x for x in labs if x[0] == "call" and x[1].startswith("ucglib::ast::Token::new")]
+        if len(made) != 1:
+            return False
+        mt = fn.term(made[0][2])
+        if mt["k"] != "call" or len(mt["args"]) < 2:
+            return False
+        tl = o.at(mt["args"][1], made[0][2])
+        kinds = {x[2] for x in tl if x[0] == "agg" and x[1] == TT} | {str(x[2]).split("::")[-1] for x in tl if x[0] == "const" and x[1] == "variant"}
+        return kinds == {"END"} and not [x for x in tl if x[0] == "call"]
     for b, t in pushes:
-        agg = [x for x in o.at(t["args"][1], b) if x[0] == "agg" and x[1] == "ucglib::ast::Token"]
-        if agg:
+        if synthetic(b, t):
             r.inst("tokenize:push-END", fn.where(b), True, "synthetic END token", nontrivial=False)
             continue
         ok = b not in ws_reach
@@ -223,8 +237,7 @@ def r74(F):
     cm_reach = reach_for("COMMENT")
     group_push = [b for b, t in fn.calls() if callee(t) == "alloc::vec::Vec::push" and b not in [p[0] for p in pushes]]
     for b, t in pushes:
-        agg = [x for x in o.at(t["args"][1], b) if x[0] == "agg" and x[1] == "ucglib::ast::Token"]
-        if agg:
+        if synthetic(b, t):
             continue
         ok = b not in cm_reach
         r.inst("tokenize:push-comment", fn.where(b), ok, "a COMMENT token never reaches this push" if ok else "a comment token can reach the output")
